@@ -139,4 +139,6 @@ MUTANTS = [
     ("C01", "tola.assembly.build_utils.EndOverhangPremise.apply", "tola.assembly.build_utils", "        self.scaffold.discard_end()", "        self.scaffold.discard_end()\n        self.scaffold.discard_end()"),
     ("C01", "tola.assembly.build_utils.OverhangPremise.makes_worse", "tola.assembly.build_utils", "        return not self.improves(err_length)", "        return self.improves(err_length)"),
     ("C01", "tola.assembly.build_utils.FoundFragment.scaffold_count", "tola.assembly.build_utils", "        return len(self.scaffolds)", "        return len(self.scaffolds) - 1"),
+    ("C11", "tola.assembly.assembly_stats.AssemblyStats.__init__", "tola.assembly.assembly_stats", "        self.joins = 0\n", "        self.joins = -1\n"),
+    ("C11", "tola.assembly.assembly_stats.AssemblyStats.__init__", "tola.assembly.assembly_stats", "        self.cuts = 0\n", "        self.cuts = 1\n"),
 ]
